@@ -228,7 +228,7 @@ def identity_closure(cl):
     return all(strip(rv).kind == 'param' and strip(rv).args[0] == 2 for rv in b.ret_val.values())
 
 
-def walk_case(prog, fn, search, case):
+def walk_case(prog, fn, search, case, want_reads=False):
     """follow the CFG from the search under one outcome; returns (result value, effects, undecided)"""
     b = fn.body
     ev = CaseEval(prog, fn, search, case)
@@ -273,6 +273,12 @@ def walk_case(prog, fn, search, case):
     for c in b.calls:
         if c.point[0] in blocks and c is not search and c.callee_name() in ('insert', 'remove', 'swap_remove', 'push') and c.args and buffer_of(prog, c.args[0]) == ('buffer',):
             effects.append((c.callee_name(), ev.ev(c.args[1]) if len(c.args) > 1 else None))
+    if want_reads:
+        reads = []
+        for c in b.calls:
+            if c.point[0] in blocks and c.callee_name() in ('get_unchecked', 'get_unchecked_mut') and len(c.args) == 2 and buffer_of(prog, c.args[0]) == ('buffer',):
+                reads.append((c, ev.ev(c.args[1])))
+        return results, effects, undecided, reads
     return results, effects, undecided
 
 
